@@ -960,6 +960,10 @@ def game_ended_only_through_its_api(chk, rule):
 UNLOAD_TABLED = {
     # (class, call text) -> reason
     ("Multiball", "self.stop()"): "a running multiball is stopped with its mode only while shoot-again still adds balls; otherwise it ends by its balls draining",
+    ("LogicBlock", "delay.clear"): "NAMES timeout: the timeout is removed by name; the hit window's exit delay must survive the unload (it only clears ignore_hits; C18 PAIR-21)",
+    ("Timer", "delay.clear"): "the timer arms one delay only ('pause') and stop(), which the unload always calls, removes it",
+    ("BallSave", "delay.clear"): "disable() removes the three named delays; the anonymous eject_delay hands back balls that are already owed to the playfield (C05)",
+    ("DropTargetBank", "delay.clear"): "a pending reset of the physical targets (reset_on_complete, ball search) is left to finish",
 }
 _CLEANUP_WORDS = ("remove", "clear", "disable", "stop", "cancel")
 
@@ -1001,6 +1005,62 @@ def unload_cleanup_unconditional(chk, rule):
                 chk.ob(rule, "%s.device_removed_from_mode: `%s` runs whenever the device is unloaded" % (c.name, short(where, 50)), not extra or tab is not None,
                        m.where(where), detail=("tabled: " + tab) if tab else "depends on %s" % sorted(extra.items()), construct=m.ident,
                        text="conditional unload step %s in %s" % (text[:50], c.name))
+    # a device with a delay manager of its own that arms delays forgets all of them when it is unloaded: delay.clear() (not a list of names,
+    # which misses the names added later) is reached on every path of device_removed_from_mode, directly or through a helper it calls
+    k = 0
+    for c in repo.subclasses(md, strict=False):
+        m = c.methods.get("device_removed_from_mode")
+        if m is None:
+            continue
+        owns = any(isinstance(x, ast.Assign) and any(_src(t) == "self.delay" for t in x.targets) and isinstance(x.value, ast.Call) and
+                   _src(x.value.func).split(".")[-1] == "DelayManager" for kls in repo.mro(c) for mm in kls.methods.values() for x in _wl(mm.node))
+        arms = any(isinstance(x, ast.Call) and _ca(x) in ("add", "reset", "add_if_doesnt_exist") and isinstance(x.func, ast.Attribute) and _src(x.func.value) == "self.delay"
+                   for mm in c.methods.values() for x in _wl(mm.node))
+        if not (owns and arms):
+            continue
+        k += 1
+        cfg = m.cfg()
+
+        def clears(fn):
+            return [nd.id for nd, cl in fn.cfg().calls_named("clear") if _src(cl.func.value) == "self.delay"]
+        via = list(clears(m))
+        for nd, cl in [(nd, cl) for nd in cfg.nodes if nd.kind == "stmt" for cl in nd.calls()]:
+            if isinstance(cl.func, ast.Attribute) and _src(cl.func.value) == "self":
+                h = repo.lookup_method(c, cl.func.attr)
+                if h is not None and h is not m:
+                    hc = h.cfg()
+                    hv = clears(h)
+                    if hv and hc.must_pass(hc.entry.id, hv) is None:
+                        via.append(nd.id)
+            if isinstance(cl.func, ast.Attribute) and _src(cl.func.value) == "super()" and cl.func.attr == "device_removed_from_mode":
+                for kls in repo.mro(c)[1:]:
+                    sm = kls.methods.get("device_removed_from_mode")
+                    if sm is not None:
+                        sv = clears(sm)
+                        if sv and sm.cfg().must_pass(sm.cfg().entry.id, sv) is None:
+                            via.append(nd.id)
+                        break
+        w = cfg.must_pass(cfg.entry.id, via) if via else [cfg.entry.id]
+        tab = UNLOAD_TABLED.get((c.name, "delay.clear"))
+        if tab is not None and tab.startswith("NAMES "):
+            # tabled with the names that must go: each is removed on every path of the unload (directly, or in a helper / disable() it always calls)
+            for nm_ in tab.split(":")[0].split()[1:]:
+                def removes(fn, nm=nm_):
+                    return [nd.id for nd, cl in fn.cfg().calls_named("remove") if _src(cl.func.value) == "self.delay" and cl.args and
+                            isinstance(cl.args[0], ast.Constant) and cl.args[0].value == nm]
+                rv = list(removes(m))
+                for nd, cl in [(nd, cl) for nd in cfg.nodes if nd.kind == "stmt" for cl in nd.calls()]:
+                    if isinstance(cl.func, ast.Attribute) and _src(cl.func.value) == "self":
+                        h = repo.lookup_method(c, cl.func.attr)
+                        if h is not None and h is not m and removes(h) and h.cfg().must_pass(h.cfg().entry.id, removes(h)) is None:
+                            rv.append(nd.id)
+                w2 = cfg.must_pass(cfg.entry.id, rv) if rv else [cfg.entry.id]
+                chk.ob(rule, "%s: unloading the device removes its `%s` delay on every path" % (c.name, nm_), w2 is None, m.where(), construct=m.ident,
+                       detail="the delay fires after the mode has stopped, on a device that has no state any more", text="delay %s survives unload of %s" % (nm_, c.name))
+        chk.ob(rule, "%s: unloading the device clears every delay it armed (delay.clear() on every path)" % c.name, w is None or tab is not None, m.where(),
+               detail=("tabled: " + tab) if tab else "delays armed under names the clean-up does not list survive the mode and fire in its name", construct=m.ident,
+               text="delays survive unload of " + c.name)
+    chk.ob(rule, "devices with delays of their own examined for the unload clean-up (%d)" % k, k >= 3, "mpf/core/mode_device.py:1", nontrivial=False)
     chk.ob(rule, "unload clean-up steps examined (%d)" % n, n >= 25, "mpf/core/mode_device.py:1", nontrivial=False)
 
 
